@@ -442,9 +442,25 @@ def _finish_task(rng, alloc, label, uid, ranks, a, src):
     if   r < 0.04: exe = ''
     elif r < 0.06: exe = None
 
+    # JSRUN_ERF names every rank explicitly, so resource sets need not all
+    # hold the same number of ranks (3 + 2 ranks over two nodes ...): split
+    # the sets of a placement unevenly now and then
+    rs_sizes = None
+    if label == 'JSRUN_ERF' and n > 2 and rng.random() < 0.35:
+        rs_sizes, i = list(), 0
+        while i < n:
+            k = 1
+            while i + k < n and k < 4 and \
+                    ranks[i + k]['node'] == ranks[i]['node'] and \
+                    rng.random() < 0.6:
+                k += 1
+            rs_sizes.append(k)
+            i += k
+
     return {'uid'  : uid,
             'src'  : src,
             'a'    : a,
+            'rs_sizes': rs_sizes,
             'ranks': ranks,
             'td'   : {'executable'    : exe,
                       'arguments'     : rng.choice([[], ['-n', '1'],
@@ -521,8 +537,19 @@ def gen_find_case(rng, uid0=0):
     dict_order = list(labels)
     rng.shuffle(dict_order)
 
+    # the resource manager lives as long as the pilot: it has chosen
+    # launchers for other tasks before (same shape, other nodes / other
+    # shapes), which must not influence the choice for B
+    A = list()
+    for i in range(rng.choice([0, 0, 1, 2, 3, 4])):
+        a = gen_task(rng, alloc, lead, 'task.%06d' % (uid0 + 1 + i),
+                     single=single if rng.random() < 0.8 else not single)
+        if alloc['knobs']['dvms'] == 2:
+            a['partition'] = rng.choice([0, 1])
+        A.append(a)
+
     return {'kind': 'find', 'order': labels, 'dict_order': dict_order,
-            'alloc': alloc, 'B': B}
+            'alloc': alloc, 'B': B, 'A': A}
 
 
 # ------------------------------------------------------------------------------
@@ -615,8 +642,12 @@ def make_task(spec, alloc, label, sbox):
         # resource set format of ContinuousJsrun: one entry per resource set,
         # a core list per rank, the GPU list of the set repeated per rank
         a = spec['a']
-        for i in range(0, len(ranks), a):
-            unit = ranks[i:i + a]
+        bounds, i = list(), 0
+        for k in (spec.get('rs_sizes') or [a] * (len(ranks) // a)):
+            bounds.append((i, i + k))
+            i += k
+        for lo, hi in bounds:
+            unit = ranks[lo:hi]
             slots.append({'node_name' : names[unit[0]['node']],
                           'node_index': unit[0]['node'],
                           'cores'     : [list(r['cores']) for r in unit],
@@ -1634,7 +1665,18 @@ def run_find_case(case, res, wd):
     rm._launchers    = lms
     rm._launch_order = [FLAVOUR[label]['name'] for label in order]
 
-    sbox = wd + '/f'
+    # earlier choices of the same resource manager instance
+    for i, a in enumerate(case.get('A') or []):
+        res.count('find_launcher_history_calls')
+        if not _find_one(rm, lms, by_name, a, alloc, order, wd + '/fa%d' % i,
+                         res, case, compile_cmd=False):
+            return
+    _find_one(rm, lms, by_name, B, alloc, order, wd + '/f', res, case,
+              compile_cmd=True)
+
+
+def _find_one(rm, lms, by_name, B, alloc, order, sbox, res, case, compile_cmd):
+
     task = make_task(B, alloc, order[0], sbox)
 
     cans = list()
@@ -1654,7 +1696,7 @@ def run_find_case(case, res, wd):
     except Exception as e:
         res.violation('find-launcher-raised', 'find_launcher raised %r' % e,
                       ctx)
-        return
+        return False
     res.count('find_launcher_calls')
     res.see('find_launcher_chosen', str(lname))
     res.see('find_launcher_position',
@@ -1665,21 +1707,25 @@ def run_find_case(case, res, wd):
         res.violation('find-launcher-order', 'find_launcher returned %s, first '
                       'method in order %s which accepts the task is %s'
                       % (lname, rm._launch_order, expected), ctx)
-        return
+        return False
     if lname is None:
         res.count('find_launcher_none')
         if launcher is not None:
             res.violation('find-launcher-order', 'no name but a launcher', ctx)
-        return
+        return True
     if launcher is not lms[lname]:
         res.violation('find-launcher-order', 'returned object is not the '
                       'launcher registered as %s' % lname, ctx)
-        return
+        return False
+
+    if not compile_cmd:
+        return True
 
     # what the executor does next: the chosen method compiles the command
     label = by_name[lname]
     obs   = observe(launcher, task, sbox, res)
     check_cmd(obs, B, alloc, label, res, case, tag='_via_find_launcher')
+    return True
 
 
 # ------------------------------------------------------------------------------
